@@ -122,6 +122,17 @@ def gen_cases(pid, tier, seed):
         c["P"] = Pm.tolist()
         c["psd"] = d % 2 == 0
         pts = special_points(rng, basis, rng.randint(1, 6 if quick else 20))
+        if d % 5 == 4:
+            # a line scan through a shell centre along a coordinate axis: EVERY point lies on two nodal planes of the
+            # shell's functions (and one of them on the centre itself)
+            from fractions import Fraction
+            c0_ = [exact.dy(x) for x in basis[0]["center"]]
+            ax_ = rng.randrange(3)
+            pts = []
+            for t_ in (Fraction(-3, 4), Fraction(0), Fraction(5, 16), Fraction(9, 8)):
+                q_ = list(c0_)
+                q_[ax_] += t_
+                pts.append(q_)
         c["points"] = [[[x.numerator, x.denominator] for x in p] for p in pts]
         c["alpha"] = rng.choice([0, 1, 0.5, 1.0, 0.0, cg.val(cg.dyadic(rng.uniform(-2, 2), 8)), 0.25, -1.5])
         c["beta"] = rng.choice([0, 0.0, 1, cg.val(cg.dyadic(rng.uniform(-2, 2), 8)), 0.75])
